@@ -417,6 +417,8 @@ def run_class_renorm(p, tdir):
     if fname is None:
         raise Inconclusive("no Naunet::Renorm in naunet.cpp")
     import re
+    curE = [z3.Real(f"cur_E{i}") for i in range(NE)]
+    curHn = z3.Real("cur_Hnuclei")
 
     for n, d in _callees(M, fname).items():
         d = d or ""
@@ -442,9 +444,18 @@ def run_class_renorm(p, tdir):
             M.stubs[n] = lu_subst
         elif re.search(r"::~(vector|matrix|permutation_matrix)\(\)", d) or "permutation_matrix<unsigned long>::permutation_matrix(" in d:
             M.stubs[n] = lambda M_, st_, a: (st_, None)
+        elif d.startswith("GetElementAbund("):
+            # a driver that looks at the current element totals before deciding what to do: arbitrary reals, one per element
+            def cur_gea(M_, st_, a):
+                if not isinstance(a[1], int) or not (0 <= a[1] < NE):
+                    raise Inconclusive("GetElementAbund index in Naunet::Renorm")
+                return st_, curE[a[1]]
+            M.stubs[n] = cur_gea
+        elif d.startswith("GetHNuclei("):
+            M.stubs[n] = lambda M_, st_, a: (st_, curHn)
     _, ret = M.run_function(fname, st, [Ptr("this", 0), Ptr("ab", 0)])
     post = [st.load("this", fo["ab_ref_"] + 8 * i) for i in range(NE)]
-    return {"ret": ret, "rec": rec, "ref": ref, "sol": sol, "post": post, "NE": NE, "NS": NS, "M": M, "fo": fo, "dem": dem, "fields": fields, "size": size}
+    return {"ret": ret, "rec": rec, "ref": ref, "sol": sol, "post": post, "NE": NE, "NS": NS, "M": M, "fo": fo, "dem": dem, "fields": fields, "size": size, "curE": curE, "curHn": curHn}
 
 
 def _class_level(case, p, tdir, res):
@@ -507,7 +518,15 @@ def _class_level(case, p, tdir, res):
         if abp != Ptr("ab", 0):
             res["viol"].append({"key": f"{tag}:RenormAbundance-args", "what": "RenormAbundance is not applied to the caller's abundances", "replay": {"case": case.name, "target": tdir}})
     pcr = z3.Or([pc for pc, _, _ in rec["renorm"]])
-    ask(f"{tag}:SUCCESS=>renormalised", z3.And(retz == 0, z3.Not(pcr)), "Naunet::Renorm returns NAUNET_SUCCESS on a path that never calls RenormAbundance")
+    # success without renormalising is right only where nothing is left to do: every current element total is exactly
+    # its stored reference ratio times the hydrogen nuclei (totals and nuclei as the driver itself read them)
+    s.push()
+    s.add(inv_axioms())
+    off = z3.Or([r["curE"][i] != ref[i] * r["curHn"] for i in range(NE)])
+    ask(f"{tag}:SUCCESS=>renormalised", z3.And(retz == 0, z3.Not(pcr), r["curHn"] != 0, off),
+        "Naunet::Renorm returns NAUNET_SUCCESS without calling RenormAbundance although an element total differs from reference ratio x hydrogen nuclei",
+        replay=lambda: {"replay_note": "path of the compiled Naunet::Renorm: the element totals in the model satisfy the driver's own test for skipping the renormalisation and differ from the reference"})
+    s.pop()
     for i in range(NE):
         ask(f"{tag}:stored-reference[{i}]-preserved", R(post[i]) != ref[i], f"Naunet::Renorm overwrites the stored reference ratio of element {i} (ab_ref_): every later renormalisation aims at a different target",
             replay=lambda: _native_two_calls(case, p, tdir))
